@@ -4,9 +4,10 @@
    claim dates are chosen freely, so arrival order differs from date order in most worlds).
 
    Mode "bfs": every world with exactly Depth items after the permanode (exhaustive, small constants).
-   Mode "sim": used with -simulate.  A behaviour alternates Pick (choose what kind of blob comes next,
-   so that delete and undelete claims are as likely as attribute claims although there are far fewer of
-   them) and the chosen action; after Depth items a single deterministic End step prints the world.
+   Mode "sim": used with -simulate.  A behaviour alternates SimPick (draw what kind of blob comes next:
+   attribute claim, delete of a claim, delete of a live delete claim = undelete, delete of the permanode,
+   or stop - so that delete chains are frequent although there are far fewer of them than claim shapes)
+   and SimDo (draw the blob); it stops after MinItems..Depth items and the world is printed once.
 
    Each printed record carries the world and the query grid (attributes x times x signer filters) that
    the replayer must ask on every query path; the expected answers are NOT printed - Trace_Claims
